@@ -35,10 +35,11 @@ type Outcome struct {
 }
 
 type snap struct {
-	sql  string
-	cols map[string]colInfo
-	rows map[string]map[string]string // k -> col -> quote(value)
-	full []string                      // rows incl. rowid, for bystander tables
+	strict bool
+	sql    string
+	cols   map[string]colInfo
+	rows   map[string]map[string]string // k -> col -> quote(value)
+	full   []string                     // rows incl. rowid, for bystander tables
 }
 
 type colInfo struct {
@@ -79,6 +80,7 @@ func snapshot(db *sql.DB) (map[string]*snap, error) {
 			names = append(names, n)
 		}
 		rows.Close()
+		_ = db.QueryRow("SELECT strict FROM pragma_table_list WHERE name = ? AND schema = 'main'", m.Name).Scan(&s.strict)
 		npk := 0
 		for _, ci := range s.cols {
 			if ci.pk > 0 {
@@ -317,7 +319,7 @@ func checkCase(c Case) (Outcome, error) {
 				}
 				// the documented transformation: NULL under a column that became NOT NULL DEFAULT d becomes d
 				if brow[col] == "NULL" && ai.notnull && ai.dflt.Valid {
-					want, err := defaultAs(db.Raw, ai.typ, ai.dflt.String)
+					want, err := defaultAs(db.Raw, ai.typ, ai.dflt.String, a.strict)
 					if err == nil && want == arow[col] {
 						continue
 					}
@@ -337,10 +339,14 @@ func checkCase(c Case) (Outcome, error) {
 var tmpSeq int
 
 // defaultAs evaluates a DEFAULT expression the way a column of the given declared type would store it.
-func defaultAs(db *sql.DB, typ, dflt string) (string, error) {
+func defaultAs(db *sql.DB, typ, dflt string, strict bool) (string, error) {
 	tmpSeq++
 	name := fmt.Sprintf("vtmp_%d", tmpSeq)
-	if _, err := db.Exec(fmt.Sprintf("CREATE TEMP TABLE %s (c %s DEFAULT (%s))", name, typ, dflt)); err != nil {
+	opt := ""
+	if strict {
+		opt = " STRICT" // ANY keeps the value as written in a STRICT table and has NUMERIC affinity elsewhere
+	}
+	if _, err := db.Exec(fmt.Sprintf("CREATE TEMP TABLE %s (c %s DEFAULT (%s))%s", name, typ, dflt, opt)); err != nil {
 		return "", err
 	}
 	defer db.Exec("DROP TABLE temp." + name)
